@@ -340,7 +340,7 @@ func main() {
 		} else {
 			directed = append(directed, scenarioCompactionEquivocation(4, true), scenarioCompactionEquivocation(4, false),
 				scenarioCompactionEquivocation(7, true), scenarioCompactionEquivocation(7, false), scenarioCrossRole(),
-				scenarioStaleRoundJustification(), scenarioForgedKnownSigner(), scenarioCommitBroadcastFault())
+				scenarioStaleRoundJustification(), scenarioForgedKnownSigner(), scenarioCommitBroadcastFault(), scenarioRepeatedPrepareJustification())
 		}
 		for _, os := range directed {
 			for _, o := range os {
